@@ -17,6 +17,11 @@ import sys
 import time
 
 VERIF = os.path.dirname(os.path.dirname(os.path.abspath(__file__)))
+
+
+def scratch_base():
+    from .seams import scratch_base as sb
+    return sb()
 ALL = ['C04', 'C05', 'C06', 'C07', 'C08', 'C09', 'C10', 'C11', 'C12', 'C13', 'C14', 'C16',
        'C17', 'C20']
 
@@ -76,7 +81,7 @@ def codec_vectors():
 def digests(prop, lo, hi, tier='quick'):
     """sequentially, in this process"""
     from . import runner
-    os.environ.setdefault('VERIF_SCRATCH', '/dev/shm/txdbus-sim-%d' % os.getpid())
+    os.environ.setdefault('VERIF_SCRATCH', os.path.join(scratch_base(), 'txdbus-sim-%d' % os.getpid()))
     m = runner._import_check(prop)
     out = []
     for i in range(lo, hi):
@@ -100,7 +105,7 @@ def _pool_one(args):
 def pool_digests(prop, lo, hi, workers=16):
     import multiprocessing
     from concurrent.futures import ProcessPoolExecutor
-    os.environ['VERIF_SCRATCH'] = '/dev/shm/txdbus-sim-%d' % os.getpid()
+    os.environ['VERIF_SCRATCH'] = os.path.join(scratch_base(), 'txdbus-sim-%d' % os.getpid())
     with ProcessPoolExecutor(max_workers=workers,
                              mp_context=multiprocessing.get_context('fork')) as ex:
         out = list(ex.map(_pool_one, [(prop, i) for i in range(lo, hi)], chunksize=5))
